@@ -11,7 +11,7 @@ from framework import CaseResult, Check
 
 KINDS = {
     # kind: (fixture key, handle kinds, nested readers: name suffix -> (kind, handle kinds))
-    'romfs': ('romfs', ['open', 'openbin'], {}),
+    'romfs': ('romfs', ['open', 'openbin', 'openbin0'], {}),        # openbin0: a handle on a ZERO-LENGTH file
     'exefs': ('exefs', ['open', 'codedec'], {}),
     'ncch-plain': ('ncch-plain', ['raw-exefs', 'raw-romfs', 'raw-exh', 'full'], {'.exefs': ['open', 'codedec'], '.romfs': ['open', 'openbin']}),
     'ncch-split': ('ncch-split', ['raw-exefs', 'raw-romfs', 'raw-exh', 'full'], {'.exefs': ['open', 'codedec'], '.romfs': ['open', 'openbin']}),
@@ -183,7 +183,10 @@ class RealWorld:
         r = self.objs[reader]
         kind = self.kinds[reader]
         if kind == 'romfs':
-            h = r.open('/a.txt', 'rb') if hk == 'open' else r.openbin('/a.txt')
+            if hk == 'openbin0':
+                h = r.openbin('/empty.bin')
+            else:
+                h = r.open('/a.txt', 'rb') if hk == 'open' else r.openbin('/a.txt')
         elif kind == 'exefs':
             if hk == 'codedec':
                 r.decompress_code()
@@ -462,7 +465,8 @@ class C16(Check):
                     pass
         finally:
             shutil.rmtree(tmp, ignore_errors=True)
-        mops = [['reader', op[1], op[2], 'path' if op[3] in ('path', 'fs') else op[3], op[4]] if op[0] == 'reader' else op for op in ops]
+        mops = [['reader', op[1], op[2], 'path' if op[3] in ('path', 'fs') else op[3], op[4]] if op[0] == 'reader' else
+                ([op[0], op[1], 'openbin', op[3]] if op[0] == 'open' and op[2] == 'openbin0' else op) for op in ops]
         model = drv.ask(sexp(['close-run'] + mops)).split(' ')
         # non-vacuity of the every-level completeness theorem: are its side conditions met by the graph this script builds?
         geom = drv.ask(sexp(['close-geom'] + mops))
